@@ -64,9 +64,9 @@ func genC14(seed uint64, run int, tier string) Scenario {
 	// the 8 strict x known-hosts cells (+ a look-alike host entry, + a path that is there when the
 	// transport is built but cannot be read when it opens: a directory, or removed meanwhile) are
 	// visited in turn
-	sc.Cell = run % 16
+	sc.Cell = run % 18
 	sc.Strict = sc.Cell%2 == 0
-	sc.KnownHosts = []string{"has", "other", "empty", "none", "other-host", "dir", "removed", "bare-host"}[sc.Cell/2]
+	sc.KnownHosts = []string{"has", "other", "empty", "none", "other-host", "dir", "removed", "bare-host", "revoked"}[sc.Cell/2]
 	sc.Auth = pick(r, "password", "key", "both")
 	sc.Host = pick(r, "router1.example.net", "10.1.2.3", "sw-"+word(r, lower+digits, 1, 8))
 	sc.Port = pick(r, 22, 2222, 830, between(r, 1024, 65535))
@@ -132,6 +132,10 @@ func runC14(env *Env, s Scenario) {
 			_ = os.WriteFile(khPath, []byte(knownhosts.Line([]string{knownhosts.Normalize("elsewhere.example.org:22")}, hostKey.PublicKey())+"\n"), 0o600)
 		case "empty":
 			_ = os.WriteFile(khPath, nil, 0o600)
+		case "revoked":
+			// the key is listed for the host and also marked as revoked
+			l := knownhosts.Line([]string{knownhosts.Normalize(addr)}, hostKey.PublicKey())
+			_ = os.WriteFile(khPath, []byte(l+"\n@revoked "+l+"\n"), 0o600)
 		case "bare-host":
 			lines := knownhosts.Line([]string{sc.Host}, hostKey.PublicKey()) + "\n"
 			if sc.Port != 22 {
